@@ -236,6 +236,15 @@ def run(tier, seed, replay):
             pairs.append((k, 'call g_RefTableEntry_refblock_offset [VInt %d]' % v, '(Ret (VInt %s))' % tk[5]))
             verdicts.append((k, 'top_verdict %d %s %s %s %s' % (v, tk[1], 'true' if tk[2] == '1' else 'false', tk[5], tk[7])))
     body = '\n'.join(defs) + '\n'
+    # a function the translator could not regenerate this run has no g_ definition: its comparisons are dropped (the
+    # proof gate has already failed on it) so that the specification oracle below still runs on the real outputs
+    try:
+        have = set(re.findall(r'^Definition (g_\w+)', open(os.path.join(qv.COQ, 'Gen', 'GenCodec.v')).read(), re.M))
+    except OSError:
+        have = set()
+    n_all_pairs = len(pairs)
+    pairs = [p_ for p_ in pairs if (re.match(r'call (g_\w+)', p_[1]) or [None, None])[1] in have]
+    untied_pairs = n_all_pairs - len(pairs)
     # shard to keep terms small
     CH = 400
     for i in range(0, len(pairs), CH):
@@ -295,7 +304,7 @@ def run(tier, seed, replay):
         'evaluations': len(pairs) + len(verdicts), 'distinct_nontrivial': distinct,
         'rule': 'inputs drawn per class (valid standard / valid compressed / boundary words / random words; refcount widths 0..6 with fitting and non-fitting values; offsets at cluster, slice and table boundaries) over geometries cb 9..21 x refcount_order x slice bits; non-trivial = distinct query line',
         'samples': [{'query': lines[i], 'implementation': outs[i]} for i in ([1, len(lines) // 3, len(lines) // 2, len(lines) - 1] if len(lines) > 3 else range(len(lines)))],
-        'programs': len(pairs), 'disagreements_checked': len(mism), 'traces_validated_against_impl': len(pairs) - len(mism),
+        'programs': len(pairs), 'disagreements_checked': len(mism), 'comparisons_dropped_function_not_regenerated': untied_pairs, 'traces_validated_against_impl': len(pairs) - len(mism),
         'distribution': stats, 'header_roundtrip_buffers': nhdr, 'spec_oracle_evaluations': len(verdicts), 'spec_oracle_violations': len(viol), 'known_finding_hits': len(kf),
     }
     expl = ('Theorems C15_l1_entry, C15_rt_entry, C15_l2_decode, C15_l2_roundtrip, C15_refcount, C15_guest_split, C15_host_split '
